@@ -361,3 +361,60 @@ package graphql
 //@   ensures typeis(node, "*ast.SelectionSet") ==> len(ti.parentTypeStack) == old(len(ti.parentTypeStack)) + 1 && len(ti.typeStack) == old(len(ti.typeStack)) && len(ti.inputTypeStack) == old(len(ti.inputTypeStack))
 //@   ensures typeis(node, "*ast.OperationDefinition") || typeis(node, "*ast.InlineFragment") || typeis(node, "*ast.FragmentDefinition") ==> len(ti.typeStack) == old(len(ti.typeStack)) + 1 && len(ti.inputTypeStack) == old(len(ti.inputTypeStack)) && len(ti.parentTypeStack) == old(len(ti.parentTypeStack))
 //@   ensures typeis(node, "*ast.VariableDefinition") || typeis(node, "*ast.Argument") ==> len(ti.inputTypeStack) == old(len(ti.inputTypeStack)) + 1 && len(ti.typeStack) == old(len(ti.typeStack)) && len(ti.parentTypeStack) == old(len(ti.parentTypeStack))
+
+// ---- type relations and interface implementation (C02, C11) ----------------------------------
+
+//@ func isEqualType
+//@   props C02 C11
+//@   functional
+//@   nosafety
+//@   assigns nothing
+//@   ensures typeA == typeB ==> result
+//@   ensures typeA != typeB && typeis(typeA, "*graphql.NonNull") && typeis(typeB, "*graphql.NonNull") ==> result == isEqualType_0(as(typeA, "*graphql.NonNull").OfType, as(typeB, "*graphql.NonNull").OfType)
+//@   ensures typeA != typeB && typeis(typeA, "*graphql.List") && typeis(typeB, "*graphql.List") ==> result == isEqualType_0(as(typeA, "*graphql.List").OfType, as(typeB, "*graphql.List").OfType)
+//@   ensures typeA != typeB && !(typeis(typeA, "*graphql.NonNull") && typeis(typeB, "*graphql.NonNull")) && !(typeis(typeA, "*graphql.List") && typeis(typeB, "*graphql.List")) ==> !result
+
+//@ func isTypeSubTypeOf
+//@   props C02 C11
+//@   functional
+//@   nosafety
+//@   assigns nothing
+//@   ensures maybeSubType == superType ==> result
+//@   ensures maybeSubType != superType && typeis(superType, "*graphql.NonNull") && typeis(maybeSubType, "*graphql.NonNull") ==> result == isTypeSubTypeOf_0(schema, as(maybeSubType, "*graphql.NonNull").OfType, as(superType, "*graphql.NonNull").OfType)
+//@   ensures maybeSubType != superType && typeis(superType, "*graphql.NonNull") && !typeis(maybeSubType, "*graphql.NonNull") ==> !result
+//@   ensures maybeSubType != superType && !typeis(superType, "*graphql.NonNull") && typeis(maybeSubType, "*graphql.NonNull") ==> result == isTypeSubTypeOf_0(schema, as(maybeSubType, "*graphql.NonNull").OfType, superType)
+//@   ensures maybeSubType != superType && !typeis(superType, "*graphql.NonNull") && !typeis(maybeSubType, "*graphql.NonNull") && typeis(superType, "*graphql.List") && typeis(maybeSubType, "*graphql.List") ==> result == isTypeSubTypeOf_0(schema, as(maybeSubType, "*graphql.List").OfType, as(superType, "*graphql.List").OfType)
+//@   ensures maybeSubType != superType && !typeis(superType, "*graphql.NonNull") && !typeis(maybeSubType, "*graphql.NonNull") && (typeis(superType, "*graphql.List") != typeis(maybeSubType, "*graphql.List")) ==> !result
+//@   ensures maybeSubType != superType && !typeis(superType, "*graphql.NonNull") && !typeis(maybeSubType, "*graphql.NonNull") && !typeis(superType, "*graphql.List") && !typeis(maybeSubType, "*graphql.List") && !typeis(maybeSubType, "*graphql.Object") ==> !result
+//@   ensures maybeSubType != superType && !typeis(superType, "*graphql.NonNull") && !typeis(maybeSubType, "*graphql.NonNull") && !typeis(superType, "*graphql.List") && !typeis(maybeSubType, "*graphql.List") && !typeis(superType, "*graphql.Interface") && !typeis(superType, "*graphql.Union") ==> !result
+//@   ensures maybeSubType != superType && typeis(maybeSubType, "*graphql.Object") && (typeis(superType, "*graphql.Interface") || typeis(superType, "*graphql.Union")) ==> result == Schema.IsPossibleType_0(schema, superType, as(maybeSubType, "*graphql.Object"))
+
+//@ func invariantf
+//@   props C11
+//@   functional
+//@   assigns nothing
+//@   ensures condition <==> result == nil
+
+//@ func Object.Fields
+//@   trusted
+//@   functional
+//@   assigns nothing
+//@ func Interface.Fields
+//@   trusted
+//@   functional
+//@   assigns nothing
+
+// Every iteration of the interface-field loop that runs to its end has checked, for its field, that
+// every argument the object field adds beyond the interface's is nullable (seed C11-1 skips this).
+//@ func assertObjectImplementsInterface
+//@   props C11
+//@   nosafety
+//@   loop 1 ensures forall j in 0..len(objectField.Args): (exists i in 0..len(ifaceField.Args): ifaceField.Args[i].PrivateName == objectField.Args[j].PrivateName) || !typeis(objectField.Args[j].Type, "*graphql.NonNull")
+//@   loop 1 ensures objectField != nil && isTypeSubTypeOf_0(schema, objectField.Type, ifaceField.Type)
+//@   loop 3 invariant forall j in 0..rangeindex+1: (exists i in 0..len(ifaceField.Args): ifaceField.Args[i].PrivateName == objectField.Args[j].PrivateName) || !typeis(objectField.Args[j].Type, "*graphql.NonNull")
+//@   loop 4 invariant ifaceArg == nil ==> forall i in 0..rangeindex+1: !(ifaceField.Args[i].PrivateName == argName)
+
+//@ func Schema.AppendType
+//@   props C11 C10
+//@   nosafety
+//@   at return: assert calls("AddImplementation") == 1 || calls("typeMapReducer") == 0 || err != nil
